@@ -4,6 +4,7 @@ package ice
 
 import (
 	"context"
+	"github.com/pion/stun/v3"
 	"net"
 	"time"
 )
@@ -13,6 +14,7 @@ func init() {
 	verifRegister("verifC04Validate", verifC04Validate)
 	verifRegister("verifC04InitialDeadline", verifC04InitialDeadline)
 	verifRegister("verifC04DeadlineRearm", verifC04DeadlineRearm)
+	verifRegister("verifC04FailedIsTerminal", verifC04FailedIsTerminal)
 	verifRegister("verifC04Tick", verifC04Tick)
 	verifRegister("verifC04Update", verifC04Update)
 	verifRegister("verifC04Restart", verifC04Restart)
@@ -320,5 +322,57 @@ func verifC04DeadlineRearm() {
 	verifAssert(tick() == ConnectionStateFailed, "the-new-deadline-elapsed=>failed-again")
 	a.loop.Close()
 	verifRunGoroutines()
+	verifReach("done")
+}
+
+// (d) Failed is left only through Restart (or Close): a gathering cycle that
+// is still running when the agent fails delivers its candidate late, the peer
+// trickles a candidate and nominates the resulting pair — the failed agent must
+// stay Failed (no Connected without Restart) and hold no candidate of the
+// failed generation.
+func verifC04FailedIsTerminal() {
+	w, _ := verifC04World(ConnectionStateChecking, false)
+	a := w.a
+	a.isControlling.Store(false)
+	a.setSelector()
+	gctx, gcancel := context.WithCancel(context.Background())
+	a.gatherCandidateCancel = gcancel // a gathering cycle is in progress
+	a.updateConnectionState(ConnectionStateFailed)
+	verifAssert(a.connectionState == ConnectionStateFailed && len(a.localCandidates) == 0, "failed:everything-released")
+	// 1. the cycle finishes late and hands its host candidate over
+	late, err := NewCandidateHost(&CandidateHostConfig{Network: udp, Address: "10.0.0.9", Port: 1009, Component: ComponentRTP})
+	verifAssert(err == nil, "constructor")
+	conn := &verifPacketConn{local: &net.UDPAddr{IP: net.ParseIP("10.0.0.9"), Port: 1009}}
+	addErr := a.addCandidate(gctx, late, conn)
+	nLocal := 0
+	for _, cs := range a.localCandidates {
+		nLocal += len(cs)
+	}
+	verifAssertKnown(addErr != nil && nLocal == 0, "a-failed-agent-takes-no-candidate-from-the-cycle-that-was-running-when-it-failed", "C04-failed-agent-keeps-gathering", true)
+	if nLocal == 0 {
+		verifReach("late-candidate-refused")
+		verifReach("done")
+		return
+	}
+	// 2. (only reachable while the finding is open) the peer trickles a candidate and nominates the pair
+	remote, err := NewCandidateHost(&CandidateHostConfig{Network: udp, Address: "20.0.0.9", Port: 2009, Component: ComponentRTP})
+	verifAssert(err == nil, "constructor")
+	a.addRemoteCandidate(remote)
+	req, err := stun.Build(stun.BindingRequest, stun.NewTransactionIDSetter(verifTxID()), stun.NewUsername(verifExpectedUsername), UseCandidate(),
+		AttrControlling(1), PriorityAttr(5), stun.NewShortTermIntegrity(verifLocalPwd), stun.Fingerprint)
+	verifAssert(err == nil, "build")
+	a.handleInbound(req, late, remote.addrPort())
+	var check *stun.Message
+	for i := range conn.sent {
+		if m := verifParseSent(conn, i); m != nil && m.Type.Class == stun.ClassRequest {
+			check = m
+		}
+	}
+	if check != nil {
+		resp, err := stun.Build(stun.BindingSuccess, stun.NewTransactionIDSetter(check.TransactionID), stun.NewShortTermIntegrity(verifRemotePwd), stun.Fingerprint)
+		verifAssert(err == nil, "build")
+		a.handleInbound(resp, late, remote.addrPort())
+	}
+	verifAssertKnown(a.connectionState == ConnectionStateFailed, "Failed-is-left-only-through-Restart", "C04-failed-agent-keeps-gathering", true)
 	verifReach("done")
 }
